@@ -44,6 +44,9 @@ func (i *interpreter) mapFind(m *amap, k value) int {
 	if m == nil {
 		return -1
 	}
+	if i.trace != nil && i.trace.recAcc {
+		i.trace.access(m, false, i.siteName())
+	}
 	for j, kk := range m.keys {
 		if i.keyEq(kk, k) {
 			return j
@@ -61,6 +64,9 @@ func (i *interpreter) mapLookup(m *amap, k value) (value, bool) {
 }
 
 func (i *interpreter) noteMapWrite(m *amap) {
+	if i.trace != nil && i.trace.recAcc {
+		i.trace.access(m, true, i.siteName())
+	}
 	if m.old > 0 {
 		i.mapUndo = append(i.mapUndo, mapUndoRec{m, append([]value{}, m.keys...), append([]value{}, m.vals...)})
 		i.oldWrite(i.oldNames[m.old-1])
@@ -103,6 +109,9 @@ type amapIter struct {
 
 func (i *interpreter) newMapIter(m *amap) iter {
 	it := &amapIter{i: i}
+	if m != nil && i.trace != nil && i.trace.recAcc {
+		i.trace.access(m, false, i.siteName())
+	}
 	if m != nil {
 		it.keys = append([]value{}, m.keys...)
 		it.vals = append([]value{}, m.vals...)
